@@ -6,11 +6,11 @@ func init() {
 	registerProp(&Property{
 		ID: "C01", Kind: "necessary structural clauses",
 		Tech:  "effect summaries + CFG/SSA lints (iterator invalidation, shift bounds, normaliser order, recursion guards, iteration caps, inverse pairs)",
-		Rules: []string{"LANG-0", "ITER-1", "SHIFT-1", "ORD-4", "REC-1", "PROG-1", "CAP-1", "EFF-2", "ORD-2"},
+		Rules: []string{"LANG-0", "ITER-1", "SHIFT-1", "ORD-4", "REC-1", "PROG-1", "CAP-1", "EFF-2", "ORD-2", "POST-1"},
 		Explanation: "Panic-freedom and termination of network simplex, weighted median, the compaction algorithms, the funnel and the spline fitter quantify over run-time values; no sound bound is in reach, so the check decides necessary clauses that are visible in the shape of the code: " +
 			"ITER-1 no loop removes the element it is visiting from the adjacency/edge list it iterates (skipped edges left the graph cyclic -> 'still cyclic' panic); SHIFT-1 no unbounded shift (layer masks collapsed at 64 layers -> matrix index panic); " +
 			"ORD-4 layers stay >= 0 after normalisation (negative layers index the layer slice); REC-1 every recursive traversal has a mark-and-test guard or a reviewed termination argument; PROG-1 the flag-guarded fix-point of the default positioner repeats only after strictly increasing a coordinate; CAP-1 the two documented iteration caps exist and depend on their options; " +
-			"EFF-2 + ORD-2 self-loops are out of all three lists while the pipeline runs and back afterwards, and every phase runs on a connected component in phase order. " +
+			"EFF-2 + ORD-2 self-loops are out of all three lists while the pipeline runs and back afterwards, and every phase runs on a connected component in phase order; POST-1 the layering phase builds the layer table on every path to a normal return (later phases index it unconditionally, also for one-node components). " +
 			"Not decided: explicit panic sites guarded by run-time preconditions, index/nil safety in general, termination of feasibleTree, transpose, placeBlock, the funnel loops and the predecessor walk in geom.Shortest, memory budgets.",
 		Assumptions: []string{"clauses are necessary, not sufficient, for the property", "REC-1's reviewed table (5 functions) is correct"},
 	})
@@ -26,9 +26,9 @@ func init() {
 	registerProp(&Property{
 		ID: "C03", Kind: "necessary structural clauses (band clause sufficient with AFF-5)",
 		Tech:  "symbolic affine execution of the Y assignment, sibling-agreement on positioners, ownership table, reversal-guard dominance, running-extremum lint",
-		Rules: []string{"AFF-5", "EFF-3", "OWN-1", "PAIR-2", "EFF-1", "ORD-5", "AGG-1", "AFF-8", "ORD-4"},
+		Rules: []string{"AFF-5", "EFF-3", "OWN-1", "PAIR-2", "EFF-1", "EFF-2", "ITER-1", "ORD-5", "AGG-1", "AFF-8", "ORD-4"},
 		Explanation: "AFF-5 (all nodes of a layer get one Y; the next band starts layer.H + LayerSpacing lower) and EFF-3 (every positioner makes layer.H the max node height) give the band clause for every input. OWN-1: Layer only changes in phase 2, so bands are the layering; PAIR-2 + EFF-1 + OWN-1: ArrowHeadStart == IsReversed, toggled only by Reverse; " +
-			"ORD-5 acyclic inputs are never reversed; AGG-1/AFF-8 longest-path layers are computed from the final maximum; ORD-4 layers stay >= 0. Not decided: feasibility (span >= 1) of network simplex through tree construction, pivots and balancing.",
+			"EFF-2 + ITER-1 the un-reverse pass visits every edge of g.Edges and flips exactly the flagged ones (a pass that iterates a list Reverse removes from skips edges: flagged but still downward); ORD-5 acyclic inputs are never reversed; AGG-1/AFF-8 longest-path layers are computed from the final maximum; ORD-4 layers stay >= 0. Not decided: feasibility (span >= 1) of network simplex through tree construction, pivots and balancing.",
 		Assumptions: []string{"floating-point sums are exact for the band clause up to rounding"},
 	})
 	registerProp(&Property{
@@ -109,8 +109,8 @@ func init() {
 	registerProp(&Property{
 		ID: "C13", Kind: "necessary structural clauses (thin by design)",
 		Tech:  "phi-pairing analysis of the two seeded runs + ownership table",
-		Rules: []string{"BEST-1", "OWN-1"},
-		Explanation: "Only BEST-1 (the better of the two seeded runs wins, each run keeps the best order it ever saw - necessary, because for an out-tree only the top-seeded run starts at zero crossings) and OWN-1 for order state. " +
+		Rules: []string{"BEST-1", "OWN-1", "ITER-1"},
+		Explanation: "BEST-1 (the better of the two seeded runs wins, each run keeps the best order it ever saw - necessary, because for an out-tree only the top-seeded run starts at zero crossings), OWN-1 for order state, and ITER-1's work-list clause: the loop that splits long edges visits the remainders it appends, so after it every edge joins adjacent layers (crossing counting and the sweeps only see such edges; an unsplit remainder is drawn straight through the sub-trees it skips). " +
 			"Not decided: planarity of the depth-first seed order and single-layer spans of tree edges - graph-theoretic, not visible in code shape.",
 		Assumptions: []string{"thin: decides a necessary clause only"},
 	})
@@ -158,12 +158,12 @@ func init() {
 		Assumptions: []string{"the supplied monitor does not mutate the values it receives", "no goroutines (LANG-0)"},
 	})
 	registerProp(&Property{
-		ID: "C20", Core: []string{"AFF-9"}, Kind: "necessary structural clause (joining only)",
+		ID: "C20", Core: []string{"AFF-9"}, Kind: "necessary structural clauses (joining, provenance of pieces)",
 		Tech:  "SSA value-identity on the recursive spline fitter and the emitting loop",
-		Rules: []string{"AFF-9"},
-		Explanation: "Only the joining clause: the two recursive FitSpline calls take path[:k+1] and path[k:] (shared split point) and pass the same tangent value as last/first tangent; a fitted piece's p0/p3 are path[0]/path[len-1]; execSplines emits each piece reversed while iterating the pieces backward. " +
-			"Not decided: termination of the fitter, containment in the corridor, and the polynomial root finder (numeric case analysis around epsilons).",
-		Assumptions: []string{"thin: decides the joining clause only"},
+		Rules: []string{"AFF-9", "CONT-1"},
+		Explanation: "CONT-1 (provenance, a necessary clause of containment): the fitting attempt reports success only for the polygon it has just tested against the barriers (or the straight segment of a two-point path), and the recursive fitter returns only such polygons or concatenations of its own results. The joining clause: the two recursive FitSpline calls take path[:k+1] and path[k:] (shared split point) and pass the same tangent value as last/first tangent; a fitted piece's p0/p3 are path[0]/path[len-1]; execSplines emits each piece reversed while iterating the pieces backward. " +
+			"Not decided: termination of the fitter, that the containment test itself is exact (it rests on the polynomial root finder: numeric case analysis around epsilons), and the root finder.",
+		Assumptions: []string{"thin: decides the joining clause and the provenance of pieces only"},
 	})
 	naReasons["C19"] = "optimality and containment of a geometric shortest path over all real-valued corridors: the deciding facts (deque bounds, dual-graph connectivity, acyclic predecessor map, numeric orientation tests) are run-time values; no clause of the property is visible in the shape of the code, and no sound static bound is in reach of the available tooling"
 }
